@@ -38,6 +38,7 @@ func init() {
 		if m := c.L.Call("ctcpdec", evArgs(e)...); m != out {
 			c.R.Mismatch("ctcpdec", hexIn(in), out, m)
 		}
+		c.genCheck("ctcpdec", hexIn(in), out, evArgs(e)...)
 		if strings.HasPrefix(out, "panic") {
 			c.R.Violation("ctcpdec.panic", hexIn(in), out, "", "DecodeCTCP panicked")
 		}
@@ -49,6 +50,7 @@ func init() {
 		if m := c.L.Call("ctcpenc", hx(cmd), hx(text)); m != hx(enc) {
 			c.R.Mismatch("ctcpenc", hexIn(in), hx(enc), m)
 		}
+		c.genCheck("ctcpenc", hexIn(in), hx(enc), hx(cmd), hx(text))
 		e := &girc.Event{Command: kind, Params: []string{"#t", enc}, Source: &girc.Source{Name: "n"}}
 		c.run("ctcpdec", evIn(e))
 		valid := cmd != ""
@@ -203,6 +205,65 @@ func init() {
 		}
 	}
 
+	// rateseq: several events passed to the limiter back to back on ONE connection (no socket write in between, so
+	// lastWrite lags): elapsed time must be credited once, not on every call
+	runners["rateseq"] = func(c *Ctx, in map[string]string) {
+		hin := hexIn(in)
+		var wd, since int64
+		fmt.Sscan(in["wd"], &wd)
+		fmt.Sscan(in["since"], &since)
+		var sizes []int
+		for _, f := range strings.Split(in["sizes"], ",") {
+			n, _ := strconv.Atoi(f)
+			sizes = append(sizes, n)
+		}
+		delays, fwd := girc.VerifRateSeq(time.Duration(wd), time.Duration(since), sizes)
+		m := strings.Fields(c.L.Call("rateseq", in["wd"], in["since"], in["sizes"]))
+		if len(m) != len(sizes)+1 {
+			fatal("rateseq: bad model answer %v", m)
+		}
+		mwd, _ := strconv.ParseInt(m[0], 10, 64)
+		// the property on the implementation: with nothing written and no time passing, once the outstanding cost exceeds
+		// 8 s every further event is held for its cost — so at most the allowance (8 s + what the idle period drained) passes
+		var passed int64
+		acc := wd
+		nearEdge := false
+		for i, n := range sizes {
+			cost := int64(time.Second) + int64(n)*int64(10*time.Millisecond)
+			acc += cost
+			if i == 0 {
+				acc -= since // the idle period is credited once, on the first call
+			}
+			if acc < 0 {
+				acc = 0
+			}
+			if abs64(acc-8*int64(time.Second)) < int64(5*time.Millisecond) {
+				nearEdge = true
+			}
+			if delays[i] == 0 {
+				passed += cost
+			} else if !nearEdge && int64(delays[i]) != cost {
+				c.R.Violation("rate.delay_exact", hin, fmt.Sprint(int64(delays[i])), fmt.Sprintf("0 or %d", cost), "the delay is neither zero nor the event's cost (1s + 10ms/byte)")
+			}
+			if !nearEdge && acc > 8*int64(time.Second) && delays[i] == 0 {
+				c.R.Violation("rate.burst_not_held", hin, fmt.Sprintf("event %d of %v passed undelayed; delays=%v", i, sizes, delays), fmt.Sprintf("held %d ns", cost),
+					"events handed over faster than they are written: the burst allowance (8 s of cost) is used up, yet a further event was not held for its cost")
+				break
+			}
+		}
+		if !nearEdge {
+			for i := range sizes {
+				if md, _ := strconv.ParseInt(m[i+1], 10, 64); int64(delays[i]) != md {
+					c.R.Mismatch("rateseq.delay", hin, fmt.Sprint(delays), strings.Join(m[1:], " "))
+					break
+				}
+			}
+			if abs64(int64(fwd)-mwd) > int64(5*time.Millisecond) {
+				c.R.Mismatch("rateseq.writeDelay", hin, fmt.Sprint(int64(fwd)), m[0])
+			}
+		}
+		_ = passed
+	}
 	runners["rate"] = func(c *Ctx, in map[string]string) {
 		wd, _ := strconv.ParseInt(in["wd"], 10, 64)
 		since, _ := strconv.ParseInt(in["since"], 10, 64)
@@ -327,6 +388,17 @@ func runC20(c *Ctx) {
 	}
 	sortStrings(names)
 	sortStrings(cnames)
+	// Fmt must be a FUNCTION of its argument: half of the colours are first seen inside a {fg,bg} pair (as foreground or as
+	// background) and only afterwards on their own, the other half the other way round (a memoised rendering shows here)
+	for i, fg := range names {
+		if (i+int(c.R.Seed))%2 == 0 {
+			bg := names[(i*5+3)%len(names)]
+			c.run("fmtitems", map[string]string{"n": "2", "k0": "pair", "a0": fg, "b0": bg, "k1": "lit", "a1": "z"})
+			c.run("fmtitems", map[string]string{"n": "2", "k0": "pair", "a0": strings.ToUpper(bg), "b0": fg, "k1": "lit", "a1": "z"})
+			c.run("fmtitems", map[string]string{"n": "3", "k0": "lit", "a0": "x", "k1": "name", "a1": fg, "k2": "lit", "a2": "y"})
+			r.Count("pair-first:"+fg, true, "pair-before-single")
+		}
+	}
 	// every name once, in three spellings
 	for _, n := range append(append([]string{}, names...), cnames...) {
 		for _, sp := range []string{n, strings.ToUpper(n), strings.Title(n)} {
@@ -471,6 +543,18 @@ func runC16(c *Ctx) {
 			r.Sample(in)
 		}
 	}
+	// bursts handed over faster than sendLoop writes them (lastWrite lags), after idle periods of every length
+	for i := 0; i < 300*c.Scale; i++ {
+		wd := int64(c.Rng.Intn(12)) * sec
+		since := int64(c.Rng.Intn(12000)) * int64(time.Millisecond)
+		var sizes []string
+		for k := 2 + c.Rng.Intn(14); k > 0; k-- {
+			sizes = append(sizes, fmt.Sprint(c.Rng.Intn(400)))
+		}
+		in := map[string]string{"wd": fmt.Sprint(wd), "since": fmt.Sprint(since), "sizes": strings.Join(sizes, ",")}
+		c.run("rateseq", in)
+		r.Count(fmt.Sprint(in), len(sizes) >= 6, "rate-burst")
+	}
 	runC16Timing(c)
 }
 
@@ -542,6 +626,29 @@ func cmdExecRunner(c *Ctx, in map[string]string) {
 			addRes = append(addRes, "dupalias")
 		default:
 			addRes = append(addRes, "err:"+err.Error())
+		}
+	}
+	// "registering an invalid or duplicate name is rejected": an Add that returned nil must not have named anything an
+	// earlier successfully registered command already answers to
+	taken := map[string]int{}
+	for i := 0; i < n; i++ {
+		if addRes[i] != "ok" {
+			continue
+		}
+		names := []string{strings.ToLower(in[fmt.Sprintf("c%d.name", i)])}
+		if a := in[fmt.Sprintf("c%d.aliases", i)]; a != "" {
+			for _, al := range strings.Split(a, "\x00") {
+				names = append(names, strings.ToLower(al))
+			}
+		}
+		for _, nm := range names {
+			if j, ok := taken[nm]; ok && j != i {
+				c.R.Violation("cmd.duplicate_accepted", hin, fmt.Sprintf("Add #%d returned nil although %q is already registered by #%d", i, nm, j), "an error",
+					"registering a duplicate name or alias must be rejected")
+			}
+		}
+		for _, nm := range names {
+			taken[nm] = i
 		}
 	}
 	e := evFromIn(in)
@@ -699,7 +806,8 @@ func runC18(c *Ctx) {
 			name = "help"
 		}
 		// (incl. a name directly followed by something that is neither a name character nor a SPACE)
-		args := c.Rng.Pick([]string{"", " a", " a b", " a  b", "  a", " ", " a\nb", " say", " x y z", "a", "?", ", you there", "\tx", "!", "X y", ".", "\n", "\x00 a"})
+		args := c.Rng.Pick([]string{"", " a", " a b", " a  b", "  a", " ", " a\nb", " say", " x y z", "a", "?", ", you there", "\tx", "!", "X y", ".", "\n", "\x00 a",
+			" a ", "  ", " a b ", " a  ", "   ", " a b  ", "  a ", " \t"}) // (trailing and repeated SPACEs: empty arguments count)
 		p := pfx
 		if c.Rng.Chance(15) {
 			p = c.Rng.Pick(prefixes)
